@@ -1531,7 +1531,7 @@ Qed.
 Definition nb_nfa : nfa :=
   mkNfa [SByteRange 97 97 1; SByteRange 98 98 6; SByteRange 98 98 3; SByteRange 99 99 4;
          SByteRange 100 100 6; SSplit 0 2; SMatch; SByteRange 0 255 8; SSplit 5 7] 5 8 1.
-Definition nb_cfg (brk : bool) : dconfig := mkCfg 1000 5 1000 brk 1 [(255%N, 0)] false false false.
+Definition nb_cfg (brk : bool) : dconfig := mkCfg 1000 5 1000 brk 1 [(255%N, 0)] false false false false.
 
 Lemma p_search_at_nobreak_not_leftmost :
   wf_nfa nb_nfa = true /\ no_look nb_nfa = true /\ prefix_ok nb_nfa = true /\
